@@ -466,6 +466,20 @@ func c17Envelope(c *core.Ctx, r *core.RNG) {
 		}
 		c.Shape("envelope", t.name, kekLen, ok)
 	}
+	// one envelope value tried with several KEKs (a server that holds more than one): a failed
+	// attempt neither changes the envelope nor the outcome of the next attempt
+	e := backend.KeyEnvelope{KEKLabel: label, AESKey: append(backend.HEXBytes{}, env.AESKey...)}
+	c.Eval(3)
+	core.Guard(func() { e.Unwrap(other); e.Unwrap(flip(kek)); e.Unwrap(r.Bytes(7)) })
+	if !bytes.Equal(e.AESKey, env.AESKey) || e.KEKLabel != label {
+		c.Violate("C17|envelope|changed-by-failed-unwrap", "envelope after failed Unwrap attempts: %x, before: %x", []byte(e.AESKey), []byte(env.AESKey))
+	}
+	if got, err := e.Unwrap(kek); err != nil || got != lorawan.AES128Key(key) {
+		c.Violate("C17|envelope|unwrap-after-failed-attempt", "Unwrap with the right KEK after failed attempts with other KEKs: %x err=%v, want %x", got, err, key)
+	}
+	if !bytes.Equal(e.AESKey, env.AESKey) {
+		c.Violate("C17|envelope|changed-by-unwrap", "envelope after a successful Unwrap: %x, before: %x", []byte(e.AESKey), []byte(env.AESKey))
+	}
 }
 
 func runC17(c *core.Ctx) {
